@@ -110,6 +110,8 @@ class CallMixin:
             b = getattr(self, "bi_" + f.id, None)
             if b is not None:
                 return b(e, p)
+            if f.id in self.local_defs:
+                return self.local_call(f.id, e, p)
             if f.id in self.reg.layouts:       # constructor
                 return self.construct(f.id, e, p)
             q = self.reg.resolve_function(f.id, self.cur_module)
@@ -123,11 +125,49 @@ class CallMixin:
                 return T.scalar(T.STR, fresh("fmt", T.StrS))
             if isinstance(f.value, ast.Name) and f.value.id == "copy" and f.attr == "deepcopy" and "copy" not in p.env:
                 return self.deepcopy(e, p)
+            lib = self.library_call(f, e, p)
+            if lib is not None:
+                return lib
             recv = self.ev(f.value, p)
             if isinstance(recv.ty, T.Obj):
                 return self.call_method(recv, f, e, p)
             return self.container_method(recv, f, e, p)
         raise Unsupported("call of a computed function")
+
+    def local_fn(self, name, arg_sorts):
+        return z3.Function("localfn_" + name, *arg_sorts, T.B)
+
+    def local_call(self, name, e, p):
+        """Call of a nested pure helper: an uninterpreted Boolean function of its (scalar) arguments."""
+        if e.keywords:
+            raise Unsupported("keyword call of a nested helper")
+        args = []
+        for a in e.args:
+            v = self.ev(a, p)
+            if isinstance(v.ty, T.Opt):
+                self._raise_if(p, v.is_none, "TypeError", f"line {e.lineno}")
+                v = v.val
+            if not v.ty.scalar or v.ty.sort() is None:
+                raise Unsupported("nested helper applied to a composite value")
+            args.append(v.t)
+        return T.sv_bool(self.local_fn(name, [a.sort() for a in args])(*args))
+
+    def library_call(self, f, e, p):
+        """Assumed contracts of random-number functions: the result is havoc within its documented range, so whatever
+        is proved holds for every outcome of the draw."""
+        dotted = []
+        cur = f
+        while isinstance(cur, ast.Attribute):
+            dotted.append(cur.attr)
+            cur = cur.value
+        if not isinstance(cur, ast.Name) or cur.id in p.env:
+            return None
+        name = ".".join([cur.id] + dotted[::-1])
+        if name in ("np.random.rand", "numpy.random.rand", "np.random.random", "random.random") and not e.args:
+            r = fresh("rand", T.R)
+            self._assume(p, z3.And(r >= 0, r < 1))
+            return T.sv_real(r)
+        return None
 
     # ---- built-ins
     def _one(self, e, p):
